@@ -16,6 +16,8 @@ REPO = front.REPO
 
 
 def repo_import(rel):
+    if rel.startswith("verif/"):
+        return importlib.import_module(rel[6:-3].replace("/", "."))
     if REPO not in sys.path:
         sys.path.insert(0, REPO)
     mod = rel[:-3].replace("/", ".")
@@ -41,7 +43,8 @@ def implies(a, b):
 
 
 def native_env():
-    env = {"implies": implies, "math": __import__("math")}
+    from . import streams
+    env = {"implies": implies, "math": __import__("math"), "new_stream": streams.new_stream, "utf8len": streams.utf8len}
     for n, s in api.SPECS.items():
         env[n] = s.fn
     for n, l in api.LEMMAS.items():
